@@ -159,6 +159,18 @@ CHECKS = {
         '(allowed by this property; a known finding of C07). thorough: all mapped zones x all tabulated transitions 1902..2037 x 5 deltas, all 1681 whole-minute fixed offsets. Print Assumptions: closed under the global context.',
    technique='Coq proof parametric in the zone oracle (NoDup invariants of the map construction, lookup inversion) over regenerated lists + correspondence with materialised oracle answers + exhaustive transition search',
    design='DESIGN.md §3 C17'),
+ 'C11': dict(
+   text='Machine-checked proof (Coq) of compiler correctness for filters: for EVERY filter AST, grid, row and comparison oracle, the expression the model of _generate_filter_in_python builds (over _get_path, _compare, and / or, '
+        'id(..) ==/!= id(NOT_FOUND), _c[i]) evaluated with the literal tuple it built is the boolean the filter denotes (a 15-line denotation: has / missing / comparison through get_path, conjunction, disjunction); '
+        'Grid.filter\'s loop returns precisely the rows for which the filter is true, in the original order, truncated to limit; a comparison on an absent tag is false for all six operators; missing is the complement of has; '
+        'absent tag, null cell, dangling reference and a step through a plain value are all "not found", a valid reference continues in the row whose id matches. '
+        'Tied by (a) AST, generated Python source (character for character) and literal tuple of the model of the pyparsing grammar vs parse_filter / _generate_filter_in_python on every generated and on malformed texts, '
+        '(b) the rows the extracted model selects vs grid.filter on grids of abstract valuations, with Python\'s comparison as the oracle. The search compares grid.filter with an independent evaluator over the generator\'s own AST.',
+   note='PARTIAL: the grammar clause (and tighter than or, left folds, parentheses, keyword boundaries) is proved only on concrete texts (computed examples); for arbitrary texts it rests on the tie (exhaustive ASTs with <= 2 connectives + random, each rendered with spacing / parenthesis variation). '
+        'The parser model covers numbers, quantities, strings, URIs, references, booleans, N, M, NA, INF, NaN; dates, times, coordinates, Bin, XStr, lists are exercised by the search only. CPython executing the generated source is trusted (the source text is compared). '
+        'Python\'s comparison of two values is an oracle (C19 / C20 model parts of it). Null cells count as absent (fix 30fb0ca). Print Assumptions: closed under the global context.',
+   technique='Coq compiler-correctness proof (induction over the AST, literal-tuple threading) + loop = filter/firstn lemma + source-text and row-selection correspondence + independent evaluator',
+   design='DESIGN.md §3 C11'),
 }
 PENDING = {}
 for i in range(1, 21):
